@@ -8,6 +8,7 @@ import DesyncModel.Inv.ParkReach
 import DesyncModel.Inv.WakeReach
 import DesyncModel.Inv.WakeTReach
 import DesyncModel.Inv.Latch
+import DesyncModel.Inv.ShapeReach
 
 namespace Desync.C06
 open Desync Gen
@@ -155,8 +156,9 @@ task-context ones included; `LatchInv`, inductive over all program counters).  W
 latch's whole contract: a wake-up that arrives before `wake_with` finds `NotWoken` with nothing stored and leaves `Woken`, and
 `wake_with` then fires the waker it is given at once; a wake-up that arrives after finds `WillWakeWithWaker` with the waker
 stored, fires it and takes it out — so the waker handed to `wake_with` is fired exactly once whichever way the race goes, and
-never twice.  What is *not* proved for this context is the rest of the chain (latch → `DoubleWaker` → queue / task), which rests
-on conformance and the oracles. -/
+never twice.  The next link of the chain (what the latch and the `DoubleWaker` hold) is `ShapeInv` below; what is *not* proved for
+this context is that the latch of the job at the head of a `WaitingForPoll` queue is the one registered with the awaited event
+(the analogue of `parked_queue_has_its_wake_up` for the polling task), which rests on conformance and the oracles. -/
 theorem latch_holds_a_waker_iff_armed {s : State} (hr : Reachable s) {l : Nat} {st : Latch} {w : Option Waker}
     (hl : s.latches[l]? = some (st, w)) : w.isSome = true ↔ st = .willWake :=
   (latchInv_reachable hr).ok l st w hl
@@ -170,6 +172,46 @@ example : LatchInv { initState 1 0 1 with latches := [(.willWake, some (.queue 0
   | 1 => simp at hl; obtain ⟨rfl, rfl⟩ := hl; simp
   | 2 => simp at hl; obtain ⟨rfl, rfl⟩ := hl; simp
   | n + 3 => simp at hl
+
+/-! ### the "task polling a returned future" context: what the latch and the double waker hold -/
+
+/-- **A wake-up that goes through a `DrainWaker` latch ends at the queue's own waker after at most two hops**, in every reachable
+state (`ShapeInv`, inductive over all program counters and environment steps): the waker stored in a latch is the queue's
+`WakeQueue` waker or a `DoubleWaker` — never a thread waker, a bare task waker or another latch. -/
+theorem latch_holds_queue_or_double_waker {s : State} (hr : Reachable s) {l : Nat} {st : Latch} {w : Waker}
+    (hl : s.latches[l]? = some (st, some w)) : (∃ q, w = .queue q) ∨ (∃ d, w = .double d) := by
+  have h := (shapeInv_reachable hr).lat l st w hl
+  cases w <;> simp_all [Waker.lvl1]
+
+/-- **A `DoubleWaker` that has not been fired holds a queue waker and the polling task's waker** (so firing it reschedules the
+queue — the operation can be carried on by a pool thread — *and* has the task polled again), in every reachable state. -/
+theorem double_waker_targets_queue_and_task {s : State} (hr : Reachable s) {d : Nat} {w1 w2 : Waker}
+    (hd : s.doubles[d]? = some (some (w1, w2))) : ∃ q t, w1 = .queue q ∧ w2 = .task t :=
+  (shapeInv_reachable hr).dbl d w1 w2 hd
+
+/-- every `wake_with` in progress — at the head of a program counter or inside a continuation — hands the latch such a waker -/
+theorem wake_with_hands_over_queue_or_double {s : State} (hr : Reachable s) (b : Nat) : (s.pcAt b).ws = true :=
+  (shapeInv_reachable hr).ws b
+
+/-- firing a `DoubleWaker` empties it and wakes both of its targets, queue first (one step of the model) -/
+theorem double_waker_fires_both {s : State} {a d : Nat} {act : Act} {k : Pc} {w1 w2 : Waker}
+    (ha : s.acts[a]? = some act) (hc : act.child = none) (hpc : act.pc = .dwCs d k) (hd : s.doubles[d]? = some (some (w1, w2))) :
+    stepAct s a = some (({ s with doubles := s.doubles.set d none }).goto a (.waking [w1, w2] k), .csD d) := by
+  unfold stepAct
+  simp only [ha, hc, hpc, Option.isSome_none, Bool.false_eq_true, ↓reduceIte, hd]
+
+/-- non-vacuity: an armed latch holding a double waker, the double waker holding its queue and task wakers -/
+example : ShapeInv { initState 1 0 1 with latches := [(.willWake, some (.double 0))], doubles := [some (.queue 0, .task 3)] } := by
+  refine ⟨?_, ?_, ?_⟩
+  · intro b; simp [State.pcAt, initState, Pc.ws]
+  · intro d w1 w2 hd
+    match d with
+    | 0 => simp at hd; obtain ⟨rfl, rfl⟩ := hd; exact ⟨0, 3, rfl, rfl⟩
+    | n + 1 => simp at hd
+  · intro l st w hl
+    match l with
+    | 0 => simp at hl; obtain ⟨rfl, rfl⟩ := hl; rfl
+    | n + 1 => simp at hl
 
 /-- the executions the `ReachableNT` theorems above quantify over never enter the task-context code -/
 theorem no_task_context_without_polling {s : State} (hr : ReachableNT s) (b : Nat) : (s.pcAt b).noTask = true :=
